@@ -61,7 +61,12 @@ def main():
                     rc2, o = sh(f"{SNAP}/check {cid} quick", cwd=SNAP, env={"KVERIF_REPO": WT, "CARGO_TARGET_DIR": TGT, "KVERIF_ROOT": ROOT})
                     lines = [l[:400] for l in o.splitlines() if l.startswith("VIOLATION") or l.startswith("NOTE")]
                     at["checks"][cid] = {"exit": rc2, "detected": rc2 == 1, "wall_s": round(time.time() - t0, 1), "lines": lines[:3]}
-            meta["at_head"] = at
+            if at["patch_applies"]:
+                meta["at_head"] = at
+                meta.pop("no_longer_applies_at", None)
+            else:
+                # the code it edits was rewritten by a later commit: keep the last results, note where it stopped applying
+                meta["no_longer_applies_at"] = {"head": head}
             json.dump(meta, open(f"{d}/meta.json", "w"), indent=1)
             print(name, "applies" if at["patch_applies"] else "DOES-NOT-APPLY", {c: v["detected"] for c, v in at["checks"].items()}, flush=True)
     finally:
